@@ -2,14 +2,17 @@
 
 1. TLC checks WirePath.tla: for every mailbox name over the abstract alphabet
    {a, DOT, SEP, U, NUL} up to a length bound, both maildir layouts and every
-   command slot, the name -> parts -> path computation of layout.py followed by
-   the kernel's resolution of '.', '..' and empty components.  `Confined` is
-   expected to fail on the unchanged tree (the layouts join the parts
-   unchecked): WirePath_asis.cfg lists the escaping names as named deviation
-   classes so that TLC passes and documents them, WirePath_asis_strict.cfg has
-   no deviations and its failure is the design-level finding,
-   WirePath_ideal.cfg switches the candidate repair on (names with an empty,
-   '.', '..' or NUL part are refused) and must pass.  WirePathUsers.tla:
+   command slot, the name -> parts -> path computation of layout.py (with
+   the refusal of unsafe names in _BaseLayout._split) followed by the kernel's
+   resolution of '.', '..' and empty components.  WirePath_asis.cfg is the
+   tree under test and must satisfy `Confined` with no deviation;
+   WirePath_ideal.cfg is the same one name length further;
+   WirePath_asis_strict.cfg models the layouts WITHOUT the refusal and is
+   expected to fail (it documents the fixed entries of known/C08.json and
+   shows the invariant can tell the difference); WirePath_unchecked.cfg is
+   that same model with its escaping name classes listed, dumped only to
+   obtain the regression corpus (which names to run in every concretisation).
+   WirePathUsers.tla:
    two users, an action of user x leaves user y's store unchanged.
 2. spec -> code: every enumerated (layout, name) state is concretised and sent,
    as an IMAP literal, in every command slot that takes a mailbox argument, by
@@ -863,15 +866,21 @@ def ex_base(store: Store, ex: Exec) -> str:
     return ex.base
 
 
-def select_states(graph, rng, quick: bool, n_random: int) -> list:
-    """states (one per (layout, name)) to execute, grouped by layout"""
+def skey(s: dict) -> tuple:
+    return (str(s['layout']), tuple(str(x) for x in s['name']))
+
+
+def select_states(graph, rng, quick: bool, n_random: int, risk: dict) -> list:
+    """states (one per (layout, name)) to execute, grouped by layout; `risk`:
+    the states of the same names in the model of the layouts WITHOUT the
+    refusal of unsafe names (the regression corpus: names that escape there)"""
     nodes = sorted(graph.nodes.values(),
                    key=lambda s: (str(s['layout']), len(s['name']), show(s['name'])))
     if not quick:
         return nodes
     chosen, rest = [], []
     for s in nodes:
-        if len(s['name']) <= 2 or s['bad'] or len(s['name']) > 4:
+        if len(s['name']) <= 2 or s['bad'] or risk[skey(s)]['bad'] or len(s['name']) > 4:
             chosen.append(s)
         else:
             rest.append(s)
@@ -883,13 +892,14 @@ def select_states(graph, rng, quick: bool, n_random: int) -> list:
 
 
 def maildir_campaign(run: Run, store: Store, states: list, rng, quick: bool,
-                     deadline: float) -> None:
+                     deadline: float, risk: dict) -> None:
     acc = {'escapes': {}, 'not_observed': {}, 'cond': {}}
     t0 = time.time()
     cut = False
     for st in states:
         layout = '++' if str(st['layout']) == 'pp' else 'fs'
-        interesting = bool(st['bad'])
+        rst = risk.get(skey(st), st)
+        interesting = bool(st['bad']) or bool(rst['bad'])
         full = (not quick) or interesting
         variants = concretise(st['name'], layout, full=full, long_too=not quick)
         if quick and not interesting:
@@ -905,7 +915,8 @@ def maildir_campaign(run: Run, store: Store, states: list, rng, quick: bool,
                 run_one(run, store, layout, False, slot, st, cvar, name, acc)
                 # the user's root as the target of DELETE / RENAME: also on a store
                 # where user1 holds no mailbox but INBOX (nothing stops the walk)
-                if str(slot_view(st, slot)['zone']) == 'root' and slot in ('DELETE', 'RENAMEfrom') \
+                if 'root' in (str(slot_view(st, slot)['zone']), str(slot_view(rst, slot)['zone'])) \
+                        and slot in ('DELETE', 'RENAMEfrom') \
                         and cvar in ('exist', 'fresh'):
                     run_one(run, store, layout, True, slot, st, cvar, name, acc)
         if time.time() > deadline:
@@ -971,17 +982,19 @@ def main(tier: str) -> int:
     ideal = tlc.run_tlc('WirePath.tla', 'WirePath_ideal.cfg', workers=16)
     run.add_model(ideal, 'WirePath_ideal.cfg')
     if not ideal.ok:
-        run.machinery(f'WirePath_ideal.cfg (candidate repair, no deviations) failed: '
+        run.machinery(f'WirePath_ideal.cfg failed: '
                       f'{ideal.violated or ideal.error}')
         return run.finish()
     strict = tlc.run_tlc('WirePath.tla', 'WirePath_asis_strict.cfg', workers=16)
     run.add_model(strict, 'WirePath_asis_strict.cfg')
     if strict.ok:
-        run.notes['asis_strict'] = 'Confined holds for the tree as modelled without deviations'
+        run.machinery('WirePath_asis_strict.cfg (layouts without the refusal of unsafe names) '
+                      'satisfies Confined: the invariant no longer tells the difference')
+        return run.finish()
     elif strict.violated == ['Confined']:
         run.notes['asis_strict'] = (
-            'Confined fails for the tree as modelled when no deviation is excused (expected '
-            'while the layouts join name parts unchecked); first counterexample: '
+            'as expected, Confined fails in the model of the layouts WITHOUT the refusal of '
+            'unsafe names; first counterexample: '
             + (_initial_counterexample(strict.output) or ''))
     else:
         run.machinery(f'WirePath_asis_strict.cfg: {strict.violated or strict.error}')
@@ -996,11 +1009,25 @@ def main(tier: str) -> int:
             run.machinery(f'{cfg}: the shared-store deviation is not rejected by Isolation '
                           f'({r.violated or r.error})')
             return run.finish()
-    states = select_states(graph, rng, quick, n_random=8)
+    # the same names in the model of the layouts without the refusal of unsafe
+    # names: which names to execute in all concretisations (regression corpus)
+    try:
+        ugraph, ures = tlc.dump_graph('WirePath.tla', 'WirePath_unchecked.cfg', workers=16)
+    except tlc.TLCError as exc:
+        run.machinery(str(exc))
+        return run.finish()
+    run.add_model(ures, 'WirePath_unchecked.cfg')
+    if not ures.ok:
+        run.machinery(f'WirePath_unchecked.cfg failed: {ures.violated or ures.error}')
+        return run.finish()
+    risk = {skey(s): s for s in ugraph.nodes.values()}
+    run.notes['risky_names'] = sum(1 for s in risk.values() if s['bad'])
+    states = select_states(graph, rng, quick, n_random=8, risk=risk)
     if not quick:
-        for cfg in ('WirePath_asis6.cfg',):
+        g6 = {}
+        for cfg in ('WirePath_asis6.cfg', 'WirePath_unchecked6.cfg'):
             try:
-                g6, r6 = tlc.dump_graph('WirePath.tla', cfg, workers=16, timeout=1500)
+                g6[cfg], r6 = tlc.dump_graph('WirePath.tla', cfg, workers=16, timeout=1500)
             except tlc.TLCError as exc:
                 run.machinery(str(exc))
                 return run.finish()
@@ -1008,14 +1035,18 @@ def main(tier: str) -> int:
             if not r6.ok:
                 run.machinery(f'{cfg} failed: {r6.violated or r6.error}')
                 return run.finish()
-            have = {(str(s['layout']), tuple(s['name'])) for s in states}
-            deep = [s for s in g6.nodes.values()
-                    if (str(s['layout']), tuple(s['name'])) not in have
-                    and s['bad'] and not any(str(x) in ('NUL', 'U') for x in s['name'])]
-            deep.sort(key=lambda s: (str(s['layout']), len(s['name']), show(s['name'])))
-            run.notes['deep_bad_names_len5_6'] = len(deep)
-            states += rng.sample(deep, min(400, len(deep)))
-            states.sort(key=lambda s: (str(s['layout']), len(s['name']), show(s['name'])))
+        risk6 = {skey(s): s for s in g6['WirePath_unchecked6.cfg'].nodes.values()}
+        have = {skey(s) for s in states}
+        deep = [s for s in g6['WirePath_asis6.cfg'].nodes.values()
+                if skey(s) not in have and (s['bad'] or risk6[skey(s)]['bad'])
+                and not any(str(x) in ('NUL', 'U') for x in s['name'])]
+        deep.sort(key=lambda s: (str(s['layout']), len(s['name']), show(s['name'])))
+        run.notes['deep_risky_names_len5_6'] = len(deep)
+        deep = rng.sample(deep, min(400, len(deep)))
+        for s in deep:
+            risk[skey(s)] = risk6[skey(s)]
+        states += deep
+        states.sort(key=lambda s: (str(s['layout']), len(s['name']), show(s['name'])))
         r7 = tlc.run_tlc('WirePath.tla', 'WirePath_asis7.cfg', workers=16, timeout=1500)
         run.add_model(r7, 'WirePath_asis7.cfg')
         if not r7.ok:
@@ -1026,7 +1057,7 @@ def main(tier: str) -> int:
     store = Store()
     try:
         maildir_campaign(run, store, states, rng, quick,
-                         deadline=run.t0 + (150 if quick else 1500))
+                         deadline=run.t0 + (150 if quick else 1500), risk=risk)
         selftest(run, store, graph)
     finally:
         store.close()
@@ -1034,7 +1065,8 @@ def main(tier: str) -> int:
     # 3. dict
     dstates = [s for s in states if str(s['layout']) == 'fs']
     if quick:
-        dstates = [s for s in dstates if len(s['name']) <= 2 or s['bad']][:60]
+        dstates = [s for s in dstates
+                   if len(s['name']) <= 2 or s['bad'] or risk[skey(s)]['bad']][:60]
     dict_campaign(run, dstates, quick)
 
     run.cov['exhaustive'] = not quick
@@ -1053,12 +1085,12 @@ def selftest(run: Run, store: Store, graph) -> None:
     """(b) of HOWTO 'proving the binding works': corrupt the expected value on
     the spec side and require the judgement to come out as a signature that
     no known finding can excuse.  Uses a fabricated execution (one stat of the
-    base directory), so it does not depend on the tree under test."""
-    st = next((s for s in graph.nodes.values()
-               if str(s['layout']) == 'fs' and show(s['name']) == '..'), None)
-    if st is None:
-        run.machinery('selftest: state fs ".." not in the graph')
-        return
+    base directory) and a fabricated model state, so it depends neither on the
+    tree under test nor on the model configuration."""
+    view = {'zone': 'base', 'pzones': frozenset(), 'cls': 'FS_DotDotComponent',
+            'allowed': frozenset({'base', 'sibling', 'siblingIn', 'root', 'in'})}
+    st = {'layout': 'fs', 'name': ('DOT', 'DOT'), 'bad': frozenset({'STATUS'}),
+          'view': {'plain': view, 'create': view}}
     base = os.path.join(store.top, 'selftest', 'base')
     ex = Exec()
     ex.base = base
